@@ -33,6 +33,11 @@ def box(name):
         return dict(fam=B(2, 'xy', 2, 2, render='tok', ignore=('WS',), extra_terms=(WS,)), alpha='xy q')
     if name == 'x1i':
         return dict(fam=B(2, 'x', 2, 2, render='tok', ignore=('WS',), extra_terms=(WS,)), alpha='x q')
+    if name == 'x2u':       # the second terminal is underscore-named (filtered): it must still show up in expected / accepts
+        return dict(fam=B(2, 'xy', 2, 2, render={'x': (('tok', 'X'), [Term('X', (('str', 'x', ''),))]),
+                                                  'y': (('tok', '_Y'), [Term('_Y', (('str', 'y', ''),))])}), alpha='xyq', ch2tok={'x': 'X', 'y': '_Y'})
+    if name == 'x2ms':      # two start symbols: Lark(start=['start', 'a']), each parse names its start symbol
+        return dict(fam=B(2, 'xy', 2, 2, render='tok'), alpha='xyq', starts=('start', 'a'))
     if name == 'e1':
         return dict(fam=families.EBNF(1), alpha='xyq')
     if name == 'e2':
@@ -42,17 +47,30 @@ def box(name):
     raise KeyError(name)
 
 
-TIERS = {'quick': [('x1', 1, 4), ('x1i', 4, 4), ('x2', 32, 4), ('x2i', 64, 4), ('e1', 1, 3), ('e2', 32, 3)],
-         'thorough': [('x1', 1, 5), ('x1i', 1, 5), ('x2', 2, 4), ('x2i', 8, 4), ('e1', 1, 4), ('e2', 2, 3), ('k3', 8, 4)]}
+TIERS = {'quick': [('x1', 1, 4), ('x1i', 4, 4), ('x2', 32, 4), ('x2i', 64, 4), ('e1', 1, 3), ('e2', 32, 3), ('x2u', 64, 4), ('x2ms', 64, 4)],
+         'thorough': [('x1', 1, 5), ('x1i', 1, 5), ('x2', 2, 4), ('x2i', 8, 4), ('e1', 1, 4), ('e2', 2, 3), ('k3', 8, 4), ('x2u', 4, 4), ('x2ms', 4, 4)]}
 
 CH2TOK = {'x': 'X', 'y': 'Y'}
+TNAMES = ('X', 'Y', '_Y')
 
 
 def termset(v):
-    return {str(x) for x in (v or ()) if str(x) in ('X', 'Y')}
+    return {str(x) for x in (v or ()) if str(x) in TNAMES}
 
 
 def check(g, gi, boxname, b, inputs, res, only=None):
+    if b.get('starts'):
+        for st in b['starts']:
+            if only and only.get('start') != st:
+                continue
+            g2 = gram.Grammar(list(g.rules.values()), list(g.terms.values()), g.ignore, start=st)
+            check1(g2, gi, boxname, b, inputs, res, only, starts=list(b['starts']), start=st)
+        return
+    check1(g, gi, boxname, b, inputs, res, only)
+
+
+def check1(g, gi, boxname, b, inputs, res, only=None, starts=None, start=None):
+    ch2tok = b.get('ch2tok', CH2TOK)
     if refsem.productive(g) != set(g.rules):
         res['counters']['skipped: unproductive non-terminal (viability undefined)'] += 1
         return
@@ -79,13 +97,13 @@ def check(g, gi, boxname, b, inputs, res, only=None):
         return refsem.accepts(g, refsem.Edges.tokens(g, [('tok', t) for t in toks]))
 
     def next_terms(toks):
-        return {t for t in ('X', 'Y') if ('tok', t) in g_terms and viable(toks + (t,))}
+        return {t for t in TNAMES if ('tok', t) in g_terms and viable(toks + (t,))}
     g_terms = set(gram.term_keys(g))
     parsers = {}
     for parser, lexer in ENGINES:
         if only and (only['parser'], only['lexer']) != (parser, lexer):
             continue
-        r = larkio.build(gtext, timeout=1.5 if parser == 'cyk' else 10, parser=parser, lexer=lexer)
+        r = larkio.build(gtext, timeout=1.5 if parser == 'cyk' else 10, parser=parser, lexer=lexer, **({'start': starts} if starts else {}))
         res['evals'] += 1
         if r[0] == 'ok':
             parsers[parser, lexer] = r[1]
@@ -102,8 +120,8 @@ def check(g, gi, boxname, b, inputs, res, only=None):
             if c == 'q':
                 qpos = i
                 break
-            if c in CH2TOK and ('tok', CH2TOK[c]) in g_terms:
-                toks.append(CH2TOK[c])
+            if c in ch2tok and ('tok', ch2tok[c]) in g_terms:
+                toks.append(ch2tok[c])
                 offs.append(i)
             elif c == ' ' and g.ignore:
                 continue
@@ -115,11 +133,11 @@ def check(g, gi, boxname, b, inputs, res, only=None):
         if kbad is None and qpos is None and sentence(toks):
             continue        # accepted input: not this property's business
         for (parser, lexer), p in parsers.items():
-            case = {'box': boxname, 'gidx': gi, 'grammar': gtext, 'parser': parser, 'lexer': lexer, 'input': w}
+            case = {'box': boxname, 'gidx': gi, 'grammar': gtext, 'parser': parser, 'lexer': lexer, 'input': w, 'start': start}
 
             def bad(kind, cause, exp, got):
                 res['viol'].append({'kind': kind, 'cause': cause, 'case': case, 'expected': exp, 'observed': got})
-            pr = larkio.parse(p, w)
+            pr = larkio.parse(p, w, **({'start': start} if start else {}))
             res['evals'] += 1
             if pr[0] == 'hang':
                 bad('hang', 'hang', 'an UnexpectedInput error', 'watchdog')
